@@ -149,6 +149,9 @@ func runC10(args []string) error {
 	for _, ts := range allTS {
 		for _, v := range tsVariants[ts] {
 			rows, cols := 9+r.Intn(8), 10+r.Intn(9)
+			if len(targets)%2 == 1 { // every other target: frames of several KiB (rate / layer budgets stop being clamped to their floor)
+				rows, cols = 44+r.Intn(20), 40+r.Intn(24)
+			}
 			fi := frameInfo(rows, cols, v.ba, v.bs, v.spp, v.pixrep, 0)
 			tg := &target{ts: ts, v: v, fi: fi, frames: c10Frames(r, fi), stream: map[string][]byte{}}
 			targets = append(targets, tg)
@@ -199,7 +202,13 @@ func runC10(args []string) error {
 					if losslessTS[ts] {
 						ll = 1
 					}
-					t.Event("solo", "ts", ts, "v", v.String(), "op", "dec", "f", f, "p", p, "sha", sha(o), "len", len(o), "srcsha", sha(tg.frames[f]),
+					// the contractual decoded frame of an odd-length native frame carries one zero pad byte (RLE): the source is
+					// padded the same way before it is compared
+					want := tg.frames[f]
+					if wl := expectedDecodedLen(ts, fi); wl == len(want)+1 {
+						want = append(append([]byte{}, want...), 0)
+					}
+					t.Event("solo", "ts", ts, "v", v.String(), "op", "dec", "f", f, "p", p, "sha", sha(o), "len", len(o), "srcsha", sha(want),
 						"wantlen", expectedDecodedLen(ts, fi), "lossless", ll, "err", es)
 				}
 			}
